@@ -212,14 +212,26 @@ static uintptr_t parseRef(MPT_INTERFACE(metatype) *mt)
 static MPT_INTERFACE(metatype) *parseClone(const MPT_INTERFACE(metatype) *mt)
 {
 	MPT_STRUCT(parseIterator) *it = MPT_baseaddr(parseIterator, mt, _mt);
-	const char *ptr;
+	MPT_INTERFACE(metatype) *copy;
+	char *restore;
 	
-	if (it->restore) {
-		ptr = it->restore;
-	} else {
-		ptr = it->val;
+	/* copy unconsumed text without the temporary element termination */
+	if ((restore = it->restore)) {
+		*restore = it->save;
 	}
-	return mpt_iterator_string(ptr, (char *) (it + 1));
+	copy = mpt_iterator_string(it->val, (char *) (it + 1));
+	if (restore) {
+		*restore = 0;
+	}
+	/* keep consumed state */
+	if (copy && !it->val) {
+		MPT_STRUCT(parseIterator) *c = MPT_baseaddr(parseIterator, copy, _mt);
+		c->val = 0;
+		if (!it->end) {
+			c->end = 0;
+		}
+	}
+	return copy;
 }
 
 /*!
